@@ -41,6 +41,10 @@ SPECS = {
     "empty_regex_next_to_literal": '<start> ::= <a> <b>\n<a> ::= r"x*"\n<b> ::= "y"\n',
     "nonascii_next_to_bits": '<start> ::= "é" <bit>{8} "z"\n<bit> ::= 0 | 1\n',
     "nonascii_in_bytes": '<start> ::= b"\\x01" "é" b"\\x00"\n',
+    # a bytes regex whose language consists of high bytes (what Grammar.fuzz generates must parse back byte for byte)
+    "bytes_regex_high": '<start> ::= <h> <p>\n<h> ::= b"\\x01"\n<p> ::= rb"[\\x80-\\xff]{1,2}"\n',
+    # a subtree whose value is TEXT FOLLOWED BY BITS, appended after data that is already bytes
+    "bytes_then_text_bits": '<start> ::= <magic> <field>\n<magic> ::= b"\\xca\\xfe"\n<field> ::= <key> <flags>\n<key> ::= "k" | "q"\n<flags> ::= <bit>{8}\n<bit> ::= 0 | 1\n',
     "constrained": '<start> ::= <d> "," <d>\n<d> ::= "1" | "2" | "x"\nwhere int(<d>) >= 1\n',
     "constrained_len": '<start> ::= <a>{1,4}\n<a> ::= "x" | "y"\nwhere len(str(<start>)) % 2 == 0\n',
 }
